@@ -1,3 +1,4 @@
+import Girc.Model.SendPath
 import Girc.Drv.EventOps
 import Girc.Model.Ctcp
 import Girc.Model.Sasl
@@ -48,6 +49,14 @@ def handlePure (op : String) (args : List String) : Option String :=
       let wd ← intArg wd; let since ← intArg since; let n ← chars.toNat?
       let (w, d) := rate wd since n
       pure s!"{w} {d}"
+  -- `rateseq wd since n1,n2,…`: the sizes are passed to `rate` back to back (same instant, no socket write in between)
+  -- on a connection whose last write was `since` ago; prints the final writeDelay and every returned delay
+  | "rateseq", [wd, since, sizes] => do
+      let wd ← intArg wd; let since ← intArg since
+      let ns ← (sizes.splitOn ",").mapM (·.toNat?)
+      let s0 : SendSt Unit := { writeDelay := wd, lastWrite := 0, lastDue := 0 }
+      let r := runSend false s0 (ns.map fun n => SendOp.send since () n)
+      pure s!"{r.1.writeDelay} {" ".intercalate (r.2.map toString)}"
   | "cmdmatch", [p, t] => do
       let p ← arg p; let t ← arg t
       pure (match matchCmd p t with
